@@ -11,8 +11,10 @@ def dense_equiv(e, dtype, expect_kind=None):
     returns (impl observation, list of failure strings)"""
     vi = expr.run_impl(e, dtype)
     oi = expr.observe_impl(vi)
-    vd = expr.run_dense(e, dtype)
     fails = []
+    if expr.operands_intact(e, dtype):
+        fails.append("an operand was modified by the operation (cores / R / N of a literal operand changed)")
+    vd = expr.run_dense(e, dtype)
     if isinstance(vd, BaseException):
         oi["dense_exc"] = type(vd).__name__ + ": " + str(vd)[:120]
         if oi["kind"] != "E":
